@@ -51,6 +51,7 @@ def run(ctx):
     # threshold RDP: once per metric (the accept/reject literal depends on it)
     for mname in METRICS:
         m = rm.build(rc, "rdp.rdp", {"cost": Obj("enum", f"Metrics.{mname}")})
+        rm.threshold_profile(rc, m, "R1", "R1b")
         models[("rdp.rdp", mname)] = m
         _r1(rc, m, f"rdp.rdp[{mname}]", lemma_metric=mname)
         _r2_threshold(rc, m, mname)
@@ -88,6 +89,7 @@ def sec_distinct(rc: RuleCtx):
     range is a strict sub-range with an interior point (R1, R1b) and each step retains exactly one index of it (R2).
     Borrowed by properties that consume the reduced curve (C08: a repeated point breaks every later stage)."""
     m = rm.build(rc, "rdp.rdp", {"cost": Obj("enum", "Metrics.smape")})
+    rm.threshold_profile(rc, m, "R1", "R1b")
     _r1(rc, m, "rdp.rdp[smape]", lemma_metric="smape")
     _r2_threshold(rc, m, "smape")
     for q in ("rdp._rdp_fixed", "rdp._grdp"):
@@ -146,6 +148,9 @@ def _r1(rc: RuleCtx, m: rm.LoopModel, tag: str, lemma_metric=None):
                 A, B = ab.items
                 if not (isinstance(A, Rat) and isinstance(B, Rat)):
                     raise AnalysisError(f"{m.qual}: pushed bounds are not numeric")
+                if iv is None and rm._position_atom(idx) is not None and any(a_.kind == "fn" and a_.name == "obj" for a_ in idx.all_atoms()):
+                    # a position in a vector the evaluator could not follow (defined on some paths only): not read, not wrong
+                    raise AnalysisError(f"{m.qual}: the split index is a position in a value that is not defined on every path to it ({_short(idx, 100)}) - shape not recognised")
                 if iv is None:
                     res.violation("R1", m.fi.module, m.fi.name, p.node,
                                   "the split index has no recognised interior interval (not argmax over d[1:-1] + 1, not int(L/2))",
